@@ -69,6 +69,8 @@ OPTION_DEVS = {
     "gw_series_c": lambda s: {**s, "gw": A.resolve_gw(A.GW["rising_c"], s["start"])},
     "gw_series_v": lambda s: {**s, "gw": A.resolve_gw(A.GW["rising_v"], s["start"])},
     "gw_late_v": lambda s: {**s, "gw": A.resolve_gw({"method": "Variable", "series": [[10, 2.0], [60, 0.9]]}, s["start"])},
+    "gw_late_c": lambda s: {**s, "gw": A.resolve_gw({"method": "Constant", "series": [[10, 2.0], [60, 0.9]]}, s["start"])},
+    "gw_early_c": lambda s: {**s, "gw": A.resolve_gw({"method": "Constant", "series": [[-40, 2.0], [30, 1.1]]}, s["start"])},
     "gw_surface": lambda s: {**s, "gw": A.resolve_gw({"method": "Constant", "dates": ["{start}"], "values": [0.05]}, s["start"])},
     "iwc_sat": lambda s: {**s, "iwc": S.iwc_for(s["soil"], "SAT")},
     "iwc_wp": lambda s: {**s, "iwc": S.iwc_for(s["soil"], "WP")},
@@ -86,6 +88,8 @@ OPTION_DEVS = {
     "adj_cn0": lambda s: _soilkw(s, adj_cn=0),
     "z_cn_odd": lambda s: _soilkw(s, z_cn=0.27, z_germ=0.12),
     "dz_thick": lambda s: {**s, "soil": {**s["soil"], "dz": [0.3] * 5}} if s["soil"]["type"] != "ac_TunisLocal" else None,
+    "dz_few8": lambda s: {**s, "soil": {**s["soil"], "dz": [0.1] * 4 + [0.2] * 4}} if s["soil"]["type"] != "ac_TunisLocal" else None,
+    "dz_few6": lambda s: {**s, "soil": {**s["soil"], "dz": [0.2] * 6}} if s["soil"]["type"] != "ac_TunisLocal" else None,
     "dz_nonuni": lambda s: {**s, "soil": {**s["soil"], "dz": A.DZ["nonuni"]}} if s["soil"]["type"] != "ac_TunisLocal" else None,
 }
 WINDOW_DEVS = {
@@ -230,9 +234,9 @@ def describe(tier):
     return {
         "rule": ("ALL pairs (crop,strategy), (crop,soil), (soil,strategy) of the catalogue product 37 crops x 15 soils x 6 strategies" if tier == "quick" else
                  "the FULL catalogue product 37 crops x 15 soils x 6 strategies (3330 full-season runs)")
-                + " on the warm word, plus, around 6 bases, every single deviation " + ("and every 23rd pair" if tier == "quick" else "and EVERY pair") + " over 43 option switches (ETadj, PlantMethod, CropType 1-3, "
+                + " on the warm word, plus, around 6 bases, every single deviation " + ("and every 23rd pair" if tier == "quick" else "and EVERY pair") + " over 47 option switches (ETadj, PlantMethod, CropType 1-3, "
                 "GDDmethod 1-3, Determinant, SwitchGDD, stress switches, bunds with z_bund 0 / 0.5 mm / 0.2 m, fallow bunds, mulches, sr_inhb, CN adjustment, water-table methods incl. "
-                "uncovered series and a table at the surface, all IWC types, CO2 options, off-season, calc_cn, adj_rew, adj_cn, odd z_cn/z_germ, thick and non-uniform thickness lists) and 10 "
+                "uncovered series and a table at the surface, all IWC types, CO2 options, off-season, calc_cn, adj_rew, adj_cn, odd z_cn/z_germ, thick, short and non-uniform thickness lists) and 10 "
                 "window deviations (leap-day start/end, season across 29 Feb, partial season, no season, start before/after planting, 3 seasons, planting on 12/31 and 01/01). Oracle: terminates "
                 "(watchdog), raises only documented rejections (matched on type AND origin), every cell of every table finite (z_gw exempt without a table).",
         "bound": "catalogue " + ("pairwise" if tier == "quick" else "complete") + "; deviations d<=" + ("1 (+1/23 of pairs)" if tier == "quick" else "2"),
